@@ -44,11 +44,16 @@ func c07ClientAppend(s *c07Store, m *c07Ref, step string) {
 	if zzsym.Choice(step+".sender", 2) == 1 {
 		uid = "a"
 	}
-	r := c07Rec{id: m.nextID, uid: uid, cno: c07ClientNos[zzsym.Choice(step+".cno", 2)], payload: byte(m.nextID), ts: m.nextTS}
+	cno := ""
+	if c := zzsym.Choice(step+".cno", 3); c < 2 {
+		cno = c07ClientNos[c]
+	}
+	r := c07Rec{id: m.nextID, uid: uid, cno: cno, payload: byte(m.nextID), ts: m.nextTS}
 	m.ids = append(m.ids, r.id)
 	_, held := m.pairHolder(r.uid, r.cno)
 	res, err := s.log.Append(context.Background(), []Record{c07ToRecord(r)}, AppendOptions{Mode: AppendStrict})
-	if uid != "" && held {
+	// only records with BOTH a sender and a client number take part in idempotency
+	if uid != "" && cno != "" && held {
 		zzsym.Assert(err != nil && errors.Is(err, dberrors.ErrConflict), "store: an append repeating a stored (sender, client number) is not refused with ErrConflict")
 		return
 	}
@@ -60,13 +65,14 @@ func c07ClientAppend(s *c07Store, m *c07Ref, step string) {
 	m.rows = append(m.rows, r)
 }
 
-// Harness_C07_StoreClientIndex: seeded log (1: no sender / x, 2: a / x, 3: no sender / y; HW = 2),
-// then 2 (thorough 3) operations from {truncate, trim, append (sender or not, x or y), reopen};
+// Harness_C07_StoreClientIndex: seeded log (1: no sender / x, 2: a / x, 3: a / no number, 4: no sender / y; HW = 2),
+// then 2 (thorough 3) operations from {truncate, trim, append (sender or not; x, y or no number), reopen};
 // after every step the full reference comparison plus both client-number listings, and again
 // after a final reopen.
 func Harness_C07_StoreClientIndex() {
 	s, m := c07FreshStore()
-	seed := [3][2]string{{"", "x"}, {"a", "x"}, {"", "y"}}
+	// every combination: no sender / number, sender / number, sender / NO number, no sender / number
+	seed := [4][2]string{{"", "x"}, {"a", "x"}, {"a", ""}, {"", "y"}}
 	for i, p := range seed {
 		m.nextID++
 		m.nextTS++
